@@ -19,8 +19,15 @@ theorem scalingCoreGen_eq (op dp opow dpow : Str) :
   simp [scaleShortcutPrefix, scaleShortcutPower, scalePowerFromOrg]
   rfl
 
+theorem isSiGen_eq (s : Str) : Scaling.isSi s = isSi s := by
+  simp [Scaling.isSi, isSiShape, Scaling.evalSi, isSi]
+
+theorem scalableGen_eq (a b : Str) : Scaling.scalable a b = scalable a b := by
+  unfold Scaling.scalable scalable
+  simp [isSiGen_eq, scalableNeedsSiA, scalableNeedsSiB, scalableComparesUnit, scalableComparesPower]
+
 theorem scalingGen_eq (a b : Str) : Scaling.scaling a b = scaling a b := by
   unfold Scaling.scaling scaling
-  rw [scalingCoreGen_eq]
+  rw [scalingCoreGen_eq, scalableGen_eq]
 
 end Nix.Units.Lemmas
